@@ -106,10 +106,12 @@ def run(subdir, module, cfg, workers=None, mode="bfs", sim=None, depth=None, tim
                 res["depth"] = int(m.group(1))
             m = re.search(r"Invariant (\w+) is violated", line)
             if m:
-                (res["violated"].append(m.group(1) if m.group(1 not in res["violated"] else None))
+                if m.group(1) not in res["violated"]:
+                    res["violated"].append(m.group(1))
             m = re.search(r"Action property (\w+) is violated|Temporal properties were violated", line)
             if m:
-                (res["violated"].append(m.group(1) if m.group(1 not in res["violated"] else None) or "temporal")
+                if (m.group(1) or "temporal") not in res["violated"]:
+                    res["violated"].append(m.group(1) or "temporal")
             if line.startswith("Error:") and "Invariant" not in line:
                 res["errors"].append(line.strip())
             m = act_re.match(line)
